@@ -344,8 +344,15 @@ where
             let mut runner = TestRunner::new_with_rng(config, rng);
             let strategy = make_strategy();
             let run_one = |v: &S::Value, st: &mut Stats| -> Result<Option<C>, (C, Fail)> {
-              let Some(case) = interpret(v, st) else {
-                return Ok(None);
+              let case = match catch(|| interpret(v, st)) {
+                Ok(Some(c)) => c,
+                Ok(None) => return Ok(None),
+                Err(p) => {
+                  // a panic inside the generator is a harness defect, never a verdict
+                  st.label("generator_panic");
+                  st.note(format!("generator panic: {p}"));
+                  return Ok(None);
+                }
               };
               let r = match catch(|| check(&case, st)) {
                 Ok(r) => r,
@@ -353,6 +360,11 @@ where
               };
               match r {
                 Ok(()) => Ok(Some(case)),
+                Err(f) if f.signature.starts_with("inconclusive:") => {
+                  st.label("inconclusive");
+                  st.note(format!("{}: {}", f.signature, f.message.chars().take(200).collect::<String>()));
+                  Ok(Some(case))
+                }
                 Err(f) => {
                   if survey {
                     let n = st.excluded_known.entry(format!("SURVEY {}", f.signature)).or_insert(0);
@@ -662,6 +674,9 @@ impl Report {
     }
     for (k, v) in std::mem::take(&mut self.extra) {
       coverage.insert(k, v);
+    }
+    if let Some(n) = self.stats.labels.get("inconclusive") {
+      self.inconclusive.push(format!("{n} case(s) hit the watchdog twice (see notes)"));
     }
     let wall = self.started.elapsed().as_secs_f64();
     let ev = json!({
